@@ -388,28 +388,72 @@ func blockedAddresses(c *Ctx, must []string) {
 	}
 	deleted := map[string]bool{}
 	rangesAll := false
+	constModule := func(e *ir.Expr) string {
+		name := ""
+		e.Walk(func(z *ir.Expr) bool {
+			if z.Op == "call" && strings.HasSuffix(z.Name, "types.NewModuleAddress") && len(z.Args) == 1 && z.Args[0].Op == "const" {
+				name = strings.Trim(z.Args[0].Name, `"`)
+			}
+			return true
+		})
+		return name
+	}
+	var updates []*ssa.MapUpdate
+	var next *ssa.Next
 	for _, b := range f.Blocks {
 		for _, in := range b.Instrs {
 			switch x := in.(type) {
 			case *ssa.Call:
 				if bi, ok := x.Common().Value.(*ssa.Builtin); ok && bi.Name() == "delete" {
-					e := w.ExprOf(x.Common().Args[1])
-					name := "?"
-					e.Walk(func(z *ir.Expr) bool {
-						if z.Op == "call" && strings.HasSuffix(z.Name, "types.NewModuleAddress") && len(z.Args) == 1 && z.Args[0].Op == "const" {
-							name = strings.Trim(z.Args[0].Name, `"`)
-						}
-						return true
-					})
+					name := constModule(w.Expand(w.ExprOf(x.Common().Args[1]), 2))
+					if name == "" {
+						name = "?"
+					}
 					deleted[name] = true
 				}
 			case *ssa.Range:
 				e := w.Expand(w.ExprOf(x.X), 2)
 				if e.Any(func(z *ir.Expr) bool { return z.Op == "global" && z.Name == "app.maccPerms" }) || strings.Contains(w.ExprOf(x.X).String(), "GetMaccPerms") {
 					rangesAll = true
+					if refs := x.Referrers(); refs != nil {
+						for _, y := range *refs {
+							if n, ok := y.(*ssa.Next); ok {
+								next = n
+							}
+						}
+					}
 				}
+			case *ssa.MapUpdate:
+				updates = append(updates, x)
 			}
 		}
+	}
+	// every entry written is the constant true (BlockedAddr looks the value up: a false entry is not blocked)
+	for i, u := range updates {
+		v, isConst := u.Value.(*ssa.Const)
+		okTrue := isConst && v.Value != nil && v.Value.String() == "true"
+		r.Require(okTrue, "A5.blocked-addresses", fmt.Sprintf("entry-value|%d", i+1), pos(c, u), "every entry of the blocked-address map is the constant true", "entry value "+w.ExprOf(u.Value).String())
+	}
+	// every iteration over maccPerms inserts its key, except where the key is compared with a constant module's address
+	if next != nil && len(updates) > 0 {
+		skip := w.EstablishedEdges(f, func(p ir.Pred) bool {
+			op, x, y, ok := p.Cmp()
+			if !ok || op != "==" {
+				return false
+			}
+			for _, side := range []*ir.Expr{x, y} {
+				if m := constModule(w.Expand(side, 2)); m != "" {
+					deleted[m] = true
+					return true
+				}
+			}
+			return false
+		}, 0)
+		isUpd := func(in ssa.Instruction) bool { _, ok := in.(*ssa.MapUpdate); return ok }
+		missed := ir.AfterReachesBackEdgeWithoutCut(f, next, isUpd, skip)
+		r.Require(len(missed) == 0, "A5.blocked-addresses", "every-key-inserted", pos(c, next), "every module account of maccPerms is inserted into the blocked list, except those compared with a constant module address", "an iteration can finish without inserting its key")
+	} else {
+		r.Require(false, "A5.blocked-addresses", "every-key-inserted", w.Pos(f.Pos()), "the blocked list is filled by a loop over maccPerms", "no range-over-maccPerms loop with a map insert found")
 	}
 	r.Require(rangesAll, "A5.blocked-addresses", "source", w.Pos(f.Pos()), "the blocked list is built from every key of maccPerms", "does not range over maccPerms")
 	mp, _, err := MaccPerms(c)
